@@ -561,6 +561,19 @@ class _Exporter:
         formal_outs = body.output[1 : num_state_vars + 1]
         actual_outs = node.output[0:num_state_vars]
 
+        # The loop-carried variables are updated by one assignment per line, executed in order.
+        # That equals the simultaneous update ONNX prescribes unless a variable is overwritten with
+        # another value and read by a later line (e.g. a body that returns its inputs swapped).
+        lhs_vars = ([cond_in] if use_loop_cond else []) + [x.name for x in formal_ins]
+        rhs_vars = ([cond_out] if use_loop_cond else []) + [x.name for x in formal_outs]
+        for j, (target, source) in enumerate(zip(lhs_vars, rhs_vars)):
+            if source != target and target in rhs_vars[j + 1 : len(lhs_vars)]:
+                raise RuntimeError(
+                    f"Unable to export Loop node {node.name!r} into python: its body returns the "
+                    f"loop-carried input {target!r} at another position, which the sequential "
+                    "assignments of the generated loop cannot express."
+                )
+
         rows.extend(self._emit_assign(formal_ins, actual_ins, indent))
 
         if node.name:
